@@ -175,7 +175,10 @@ CHECKS = {
              "C11_guard_refuted and C11_any_empty_refuted are the witnesses of the three recorded findings. gen/PredGen.v is regenerated on every run, so the proofs are re-checked "
              "against the current sources; model/Pred.v is tied to the code by 300 predicate structures evaluated by the real predicate.py and 150 arrangements of real tracers "
              "(conditions + local guards) compared with the model in coqc; the oracle compares, on 120 generated programs, the occurrences every conditional handler saw with "
-             "the reference stream filtered by the condition evaluated on the plain AST, including the suite's set-the-guard-at-first-load scenario.",
+             "the reference stream filtered by the condition evaluated on the plain AST, including the suite's set-the-guard-at-first-load scenario. "
+             "Conditions that RAISE on some nodes: evalx / site_x / invoked_x (option-valued, Python's evaluation order, generated *_x decision functions and comp_part_guard); "
+             "C11_raising_conditions: invoked_x envx hs p = Some (invoked (total envx) hs p) - the rewrite is never aborted whatever the registration order, a handler runs exactly "
+             "where 'raising = not satisfied' says; K-pred / K-inv generate raising conditions.",
         note="Trusted: Coq kernel + vm_compute; translator gen_pred.py; hand-written recursion and site/delivery/guard composition of model/Pred.v (validated by the two "
              "correspondences); ref_instr.py as definition of occurrences. The theorems are 'at one node': that an occurrence of the node reaches emit_event exactly when a site "
              "exists is C02's business.",
@@ -204,7 +207,8 @@ CHECKS = {
              "same class with other events / guard setting / static condition, no node table, caching forbidden, accept-everything, a stack; writable / read-only / "
              "no-write; edits): per module and process, `behaves as fresh` and the cache directory content (ordinary .pyc, instrumented .pyc files, .pkl files) are compared "
              "with run_trace in coqc, and the oracle compares every process (errors, module namespaces, full event log with node validity) with the same process alone on a "
-             "fresh copy at the same source version.",
+             "fresh copy at the same source version. Processes whose module body RAISES at import (a missing dependency, 20% of the processes) are part of the model (p_raises: "
+             "the table beside a rewritten entry is removed before the body runs and written only after it has run) and of the real histories.",
         note="Trusted: Coq kernel + vm_compute; the hand model of importlib's get_code and of the file system (one writer at a time; a process writes bytecode and node table or "
              "neither; mtime distinguishes versions), validated by the correspondence, not verified; the harness (read-only mode by dropping privileges). Five defects found by "
              "this check were repaired (see known_findings.json); the model describes the repaired code.",
@@ -225,7 +229,9 @@ CHECKS = {
         text="C15_result_partial (the returned mapping, the caller's mapping and globals equal those of running the program's bindings as a function body), "
              "C15_raises and C15_clean (no internal name in result / caller's mapping / globals, finishing or raising) are Qed-closed for every supplied "
              "mapping and every sequence of local/global bindings and deletions over ordinary identifiers (the runs use plain, underscore- and dunder-prefixed, upper-case, `_` and non-ASCII names); C15_result_refuted is the recorded finding "
-             "(`builtins` / `__` bound by the program are dropped). Tied to tracer.py by 400 generated programs x mappings x {instrumented, not, "
+             "(`builtins` / `__` bound by the program are dropped). C15_result_passthrough: supplied names that are no parameters of the scaffold (declared global by the program, "
+             "or not possible parameter names: 'class', 'a b', 'None', '__debug__') are handed back unchanged: the result holds name by name what the reference holds. "
+             "Tied to tracer.py by 400 generated programs x mappings x {instrumented, not, "
              "NoopTracer}; the oracle runs the same text as a function body in plain Python and also compares eval with the built-in eval.",
         note="Trusted: Coq kernel + vm_compute; the abstraction of a straight-line program as its binding operations (CPython's function-local scoping "
              "is modelled); generator computing that abstraction; harness. eval is covered by the oracle only.",
@@ -268,9 +274,11 @@ CHECKS = {
              "the model's walk is compared with the real is_outer_stmt / is_initial_frame_stmt for every statement of every exported tree. C18_history (model/BookHist.v): for every history of "
              "instrumentations (whole modules and single functions, any paths, collection on or off) whose new nodes are live objects not yet in the tables, every "
              "bookkeeper whose code can still run has all its ids in the tables and its lines in the line table of its module; stated over book_remove_first regenerated "
-             "from AstRewriter.visit; C18_remove_after_add_refuted keeps the witness for the other order. Tied by 100 real histories (K-hist).",
+             "from AstRewriter.visit; C18_remove_after_add_refuted keeps the witness for the other order. C18_history_own_keys: since the line tables are keyed by one of the "
+             "bookkeeper's own registered nodes (gen/BookOrder.v book_mid_is_registered_node, checked per instrumentation) the freshness of module ids is no assumption any more. "
+             "Tied by 100 real histories (K-hist) in which the trees handed to the rewriter die as in real use.",
         note="Trusted: Coq kernel + vm_compute; hand transcription (validated by correspondence); the exporter that canonicalises ids to traversal "
-             "indices and leaves out CPython's shared singleton nodes (Load, Add, ...); translator gen_book.py. The history theorem assumes ids are not reused within a history (checked on every real history).",
+             "indices and leaves out CPython's shared singleton nodes (Load, Add, ...); translator gen_book.py. The history theorem assumes ids of REGISTERED nodes are not reused within a history (checked on every real history).",
         ref="DESIGN.md section 7 C18"),
     "C19": dict(
         technique="Coq proof (a decorated call is a nest of enabled contexts of the context machine: state restored from any reachable state, returning or raising; delivery to exactly the decorator's tracers; code selection lemma) + real module files decorated and called, compared with the original function and with the same function instrumented through exec",
@@ -281,7 +289,9 @@ CHECKS = {
              "(all parameter kinds, defaults, docstrings, raising, recursion, nested function of the same name, generators, another decorator above / below), decorates "
              "them with 1-2 tracers through pyc.instrumented([...]) or @tracer, interleaves ~300 calls and compares: result / exception / side effects / name / docstring with "
              "the undecorated copy, tracer stack and flags before and after every call, the events delivered during the call (and their node types) with the same "
-             "function text instrumented through exec, node validity, and that nothing is delivered outside calls.",
+             "function text instrumented through exec, node validity (the text at the node's position in the FILE parses to a node of its type), the text of the innermost "
+             "traceback line, and that nothing is delivered outside calls. Definitions indented under `if`, multi-line string literals, `from __future__ import annotations`, "
+             "tracers with a sys.settrace handler and functions far from line 1 are generated.",
         note="Trusted: Coq kernel + vm_compute; model/Ctx.v + Decor.v transcriptions (validated by C06 / C07's correspondence and by the before/after snapshots here); the "
              "reference events come from the exec path, which C01 / C02 decide. Behavioural equality of the rewritten body is C01's theorem, not restated here.",
         ref="DESIGN.md section 7 C19"),
